@@ -7,6 +7,11 @@ _NOTE = ('Trusted: Lean 4.33.0 kernel; axioms propext/Classical.choice/Quot.soun
          'hash functions, refmt cbor decoding outside the canonical header subset, go-cid/go-multihash parsing as transcribed are parameters of the model. ')
 
 TEXT = {
+    'C14': {
+        'text': 'Kernel-checked by induction over the block list for an arbitrary infinite choice string: v1_any_choices and v2_any_choices (for every valid CARv1 / CARv2 with any padding and any trailing index, seekable or plain source, every interleaving of Next and SkipNext yields for block i either the block or metadata with Offset = payload offset of its length prefix, SourceOffset = 51 + padding + Offset, Size = data length, and a clean EOF exactly at the end of the payload window), visits_cids (same CID sequence for every choice string), skip_offset_is_index_offset (Offset is what an index records). Invariant: br.offset = true source offset (BRInv). '
+                'The tie drives the real BlockReader with choice strings over four source kinds and compares visits, EOF position and the byte count read from the wrapped source (never past DataOffset+DataSize).',
+        'note': _NOTE + 'The "never consumed past the payload" clause is structural in the model (the v2 reader only sees the take(DataSize) window) and measured on the real code by a counting source on every case.',
+    },
     'C01': {
         'text': 'Kernel-checked for every root list, block list and option setting: uvarint_roundtrip, cid_roundtrip (both go-cid decoders), header_roundtrip (dag-cbor header, nil vs empty roots), section_framing; writers_same_payload (the payload window depends only on roots and stored blocks, not on API/version/padding/codec); roundtrip_v1 and roundtrip_v2 (the file left by any put history, in CARv1 mode or after Finalize in CARv2 mode with any paddings and either codec, is read back by the block reader / CARv1 reader as exactly the roots and the stored blocks in order, clean EOF); roundtrip_index. '
                 'The tie writes generated content with seven writer front ends and reads each file with ten reader paths; file bytes must equal the model\'s and the layout spec\'s prediction byte for byte.',
